@@ -102,9 +102,11 @@ func (rc *arrayCodec) resizeSlice(in sliceHeader, len int) sliceHeader {
 	if in.Len+len <= in.Cap {
 		return in
 	}
-	// Will assume for now that blocks are sensible sizes
+	// Blocks need not be sensible sizes: an array may arrive as very many small
+	// blocks, so grow geometrically rather than by one block at a time (which
+	// copies the whole array once per block).
 	out := sliceHeader{
-		Cap: in.Len + len,
+		Cap: max(in.Len+len, 2*in.Cap),
 		Len: in.Len,
 	}
 	elemType := unpackEFace(rc.itemType).data
